@@ -144,6 +144,13 @@ def check_flash_loan(ctx, model):
                     if mname(xt).endswith("checked_add") and const_of(cv, xt["args"][1], cv.at_term(xb)) == 1:
                         inc = True
     first = all(must_pass_through(v, ub, [pb for pb, _ in pushes]) for ub, _ in ups) and bool(ups)
+    # every successful return of flash_loan has scheduled the AfterTrade callback (which is what decrements the counter
+    # and enforces repayment): no early `return Ok` between the increment and the callback push
+    if "callback" in kinds:
+        oks = ok_value_blocks(v)
+        paired = bool(oks) and must_pass_through(v, kinds["callback"], oks)
+        ctx.ob("C06-X4", "%s|every-success-schedules-after-trade" % FLASH, paired,
+               "the AfterTrade callback push lies on every path to a successful return: %s" % paired, v.where(kinds["callback"]))
     ctx.ob("C06-X4", "%s|counter-incremented-first" % FLASH, inc and first,
            "LOAN_COUNTER.update adds 1: %s; precedes every message push: %s" % (inc, first), v.where())
     check_messages_attached(ctx, model, FLASH, rule="C06-X2")
